@@ -7,7 +7,11 @@ def hand_network(rng, max_n=14):
     """simple graph, random topology per edge, vertex annotation = number of incident edges per topology
     (2-clique-like) or, with probability 0.3, a coarser consistent annotation (ceil(inc/2), triangle-like)"""
     T = rng.randint(1, 3)
-    names = rng.sample(["2-clique", "3-clique", "a", "tri-blue", "x"], T)
+    pool = ["2-clique", "3-clique", "a", "tri-blue", "x"]
+    if rng.random() < 0.35:
+        # names contained in one another, sharing a prefix, or empty: a name is an opaque key, never a pattern
+        pool = ["2-clique", "2-clique-blue", "clique", "", "a", "a-a", "2"]
+    names = rng.sample(pool, T)
     n = rng.randint(2, max_n)
     p = rng.choice([0.15, 0.3, 0.5])
     edges = []
@@ -65,7 +69,8 @@ def build_graph(case):
     import networkx as nx
     from gcmpy.names.network_names import NetworkNames as NN
     G = nx.Graph()
-    for v, row in case["jd"]:
+    order = {v: k for k, v in enumerate(case.get("node_order") or [])}
+    for v, row in sorted(case["jd"], key=lambda t: order.get(t[0], t[0])):
         G.add_node(v)
         # the annotation is a sequence of ints: tuples from the library's generators, lists from hand-built / loaded networks
         G.nodes[v][NN.JOINT_DEGREE] = list(row) if case.get("jd_type") == "list" else tuple(row)
